@@ -1,0 +1,64 @@
+//go:build verif
+
+// Contracts for the verif build tag (read by /verif/govc; comment-only).
+package controllers
+
+// (term, offset) of e is lexicographically <= (t, o)
+//@ define lexle(e *proto.EntryId, t int64, o int64) bool = e.Term < t || (e.Term == t && e.Offset <= o)
+
+// selectNewLeader: the chosen leader is one of the responders and no responder has
+// a head entry that is lexicographically greater (best log wins); the followers
+// are exactly the other responders with their reported heads. Holds for every map,
+// every iteration order and every random pick.
+//
+//@ func selectNewLeader
+//@ property C05 C01
+//@ requires newTermResponses != nil && exists k model.Server :: inmap(newTermResponses, k)
+//@ requires forall k model.Server :: inmap(newTermResponses, k) ==> newTermResponses[k] != nil && newTermResponses[k].Term >= -1 && newTermResponses[k].Offset >= -1
+//@ loop 0 invariant currentMaxTerm >= -1 && currentMax >= -1
+//@ loop 0 invariant forall k model.Server :: seen(0, k) ==> inmap(newTermResponses, k) && lexle(newTermResponses[k], currentMaxTerm, currentMax)
+//@ loop 0 invariant forall i int :: 0 <= i && i < len(candidates) ==> seen(0, candidates[i]) && newTermResponses[candidates[i]].Term == currentMaxTerm && newTermResponses[candidates[i]].Offset == currentMax
+//@ loop 0 invariant (exists k model.Server :: seen(0, k)) ==> len(candidates) > 0
+//@ loop 0 invariant (forall k model.Server :: !seen(0, k)) ==> currentMaxTerm == -1 && currentMax == -1
+//@ loop 0 invariant cap(candidates) == 0 || fresh(candidates)
+//@ loop 0 modifies fresh
+//@ loop 1 invariant followers != nil && forall k model.Server :: inmap(followers, k) <==> (seen(1, k) && k != leader)
+//@ loop 1 invariant forall k model.Server :: seen(1, k) ==> inmap(newTermResponses, k)
+//@ loop 1 invariant forall k model.Server :: inmap(followers, k) ==> followers[k] == newTermResponses[k]
+//@ loop 1 modifies fresh
+//@ ensures inmap(newTermResponses, leader)
+//@ ensures forall k model.Server :: inmap(newTermResponses, k) ==> lexle(newTermResponses[k], newTermResponses[leader].Term, newTermResponses[leader].Offset)
+//@ ensures forall k model.Server :: inmap(followers, k) <==> (inmap(newTermResponses, k) && k != leader)
+//@ ensures forall k model.Server :: inmap(followers, k) ==> followers[k] == newTermResponses[k]
+//@ modifies nothing
+
+//@ func listContains
+//@ property C05 C19
+//@ pure
+//@ reads fields(model.Server), fields(string)
+//@ loop 0 modifies new
+//@ loop 0 invariant forall j int :: 0 <= j && j <= rangeindex && j < len(list) ==> srvId(list[j]) != srvId(sa)
+//@ ensures result <==> exists i int :: 0 <= i && i < len(list) && srvId(list[i]) == srvId(sa)
+
+//@ func mergeLists(lists)
+//@ property C05
+//@ requires len(lists) == 2
+//@ loop 0 invariant cap(res) == 0 || fresh(res)
+//@ loop 0 modifies fresh
+//@ loop 0 invariant rangeindex < 2 && len(res) == ite(rangeindex == -1, 0, ite(rangeindex == 0, len(lists[0]), len(lists[0]) + len(lists[1])))
+//@ ensures len(result) == len(lists[0]) + len(lists[1])
+//@ modifies nothing
+
+// newTermQuorum: on success a majority of (ensemble + removed nodes) answered, and
+// only members of the current ensemble are offered as leader / follower candidates.
+//
+//@ func shardController.newTermQuorum(s) (res, err)
+//@ property C05 C01
+//@ requires s.newTermQuorumLatency != nil && s.ctx != nil && s.log != nil
+//@ requires len(s.shardMetadata.Ensemble) + len(s.shardMetadata.RemovedNodes) >= 1
+//@ loop 1 invariant (err != nil || successResponses == totalResponses) && fencingQuorumSize >= 1
+//@ loop 1 invariant res != nil && successResponses <= totalResponses && forall k model.Server :: inmap(res, k) ==> listContains(s.shardMetadata.Ensemble, k)
+//@ loop 2 invariant res != nil && successResponses >= majority && forall k model.Server :: inmap(res, k) ==> listContains(s.shardMetadata.Ensemble, k)
+//@ assert at call Timer.Done#0: successResponses >= majority
+//@ assert at call Timer.Done#1: successResponses >= majority
+//@ ensures err == nil ==> res != nil && forall k model.Server :: inmap(res, k) ==> listContains(s.shardMetadata.Ensemble, k)
